@@ -82,7 +82,7 @@ func biasFor(prop string) map[string]int {
 		b["CreateCertificate"] = 6
 		b["SignProviderAttributes"] = 12
 		b["DeleteProviderAttributes"] = 8
-		b["CreateCertificate"] = 2
+		b["CreateCertificate"] = 5
 		b["RevokeCertificate"] = 1
 		b["fault.crash"] = 5
 		b["UpdateProvider"] = 8
@@ -348,7 +348,7 @@ func (Engine) Describe(property string) core.Description {
 			"staking/mint/distribution/gov/ibc Begin/EndBlockers (idle)"},
 		Stub:        []string{"Tendermint consensus/p2p/mempool: absent, the simulator is the block proposer"},
 		Assumptions: []string{"fees and gas prices are zero in simulation", "store-level (IAVL/tm-db) disk faults are out of scope", "sampling: held on everything explored, not a proof"},
-		QuickRuns:   800, ThoroughRuns: 30000, QuickBudgetS: 150, ThoroughBudget: 1500,
+		QuickRuns:   800, ThoroughRuns: 30000, QuickBudgetS: 150, ThoroughBudget: 900,
 		SimTimeUnit: "blocks",
 	}
 	switch property {
